@@ -6,6 +6,7 @@ meta.json as "verdict": "not-benign" with the reason; it then counts as a detect
 usage: harvest_benign.py [BN1 BN2 ...]   then reruns every stored change (or only ids given with --only)"""
 import json, os, shutil, subprocess, sys
 V = os.path.dirname(os.path.dirname(os.path.abspath(__file__)))
+REPO = os.environ.get("HALO_REPO", "/repo")       # a scratch worktree (with HALO_CACHE) lets several corpus runs go in parallel
 B = os.path.join(V, "benign")
 os.makedirs(B, exist_ok=True)
 args = [a for a in sys.argv[1:] if not a.startswith("--")]
@@ -25,14 +26,16 @@ for bn in [a for a in args if "-" not in a]:
         only += [x for x in sorted(os.listdir(B)) if x.startswith(bn + "-")]
 man = json.load(open(os.path.join(V, "MANIFEST.json")))
 checks = [c["property_id"] for c in man["checks"]]
-st = subprocess.run("git -C /repo status --porcelain", shell=True, stdout=subprocess.PIPE, text=True).stdout.strip()
+if os.environ.get("HALO_CHECKS"):
+    checks = os.environ["HALO_CHECKS"].split(",")      # partial run while iterating on one rule (results are then partial too)
+st = subprocess.run("git -C %s " % REPO + "status --porcelain", shell=True, stdout=subprocess.PIPE, text=True).stdout.strip()
 if st:
     raise SystemExit("/repo has local modifications; refusing:\n" + st)
 for bid in sorted(d for d in os.listdir(B) if os.path.isdir(os.path.join(B, d))):
     if only and bid not in only:
         continue
     d = os.path.join(B, bid)
-    if subprocess.run("git -C /repo apply %s" % os.path.join(d, "patch.diff"), shell=True).returncode != 0:
+    if subprocess.run("git -C %s " % REPO + "apply %s" % os.path.join(d, "patch.diff"), shell=True).returncode != 0:
         print(bid, "PATCH DOES NOT APPLY"); continue
     try:
         code = "import json,sys; sys.path.insert(0,%r); from analysis import engine; print('@@'+json.dumps(engine.evaluate_dry(%r)))" % (V, checks)
@@ -46,7 +49,7 @@ for bid in sorted(d for d in os.listdir(B) if os.path.isdir(os.path.join(B, d)))
                 if vs:
                     fired[c] = ["%s :: %s" % (v["key"] if "key" in v else v["instance"], v["reason"][:300]) for v in vs[:6]]
     finally:
-        subprocess.run("git -C /repo checkout -- . && git -C /repo clean -fdq", shell=True)
+        subprocess.run("git -C %s " % REPO + "checkout -- . && git -C %s clean -fdq -e target" % REPO, shell=True)
     mp = os.path.join(d, "meta.json")
     meta = json.load(open(mp)) if os.path.exists(mp) else {"id": bid, "verdict": "benign"}
     meta["alarms"] = fired
